@@ -7,6 +7,7 @@ mod exec;
 mod lua51check;
 mod luaucheck;
 mod progen;
+mod progen_c01;
 mod progen_c17;
 mod progen_c05;
 mod progen_c06;
